@@ -151,6 +151,8 @@ def run_case(case, acc):
                                        order=case.get('order', 0))
     dn, primes, k, covers, Fp, Cp = cv.reference(
         case['grid'], case['f'], case['care'])
+    if case['grid'] in ('b5', 'g444'):
+        acc.count('sampled_instances_beyond_the_exhaustive_scope')
     cover = cov.minimize(f, care, ctx)
     got = cv.read_cover(ctx, cover, dn)
     acc.ev(dict(c=case), nontrivial=(k or 0) >= 2)
